@@ -476,9 +476,14 @@ package tchannel
 // A checksum handed out for a message starts from the initial state (pooled
 // objects are Reset) and has the requested type (pool discipline, T3) -- except
 // that the Farmhash pool hands out null checksums (type code None).
+// handed(c): the running checksum c was handed out by the pool and has not been
+// given to a call's bookkeeping yet (ghost; set here, cleared where a relay item
+// takes it over).
+//@ ghostfield handed
 //@ func (t ChecksumType) New() (c Checksum)
 //@   requires t < 4
-//@   modifies cs(c)
+//@   modifies cs(c), handed(c)
+//@   defines handed(c) == 1
 //@   ensures c != nil && (CSreal(c) ==> cs(c) == csinit())
 //@   defines !istype(c, nullChecksum) ==> ctype(c) == t
 // (pool discipline, T3: the pools hold hash and null checksums only -- what their
